@@ -7,7 +7,9 @@ Reads /repo's *current* source with `ast` and writes lean/Pycdlib/Generated/*.le
   * the arithmetic kernel: integer functions translated statement by statement into Lean over `Int`
     (assignment, augmented assignment, if/elif/else, return, tuple return, + - * // %, comparisons, and/or/not,
     min/max, << >> & | ^, table lookup, `for x in data` / `for i, x in enumerate(data)` folds, calls to other
-    translated functions, reads of `self.attr` / `param.attr` turned into parameters).
+    translated functions, reads of `self.attr` / `param.attr` turned into parameters; methods that update
+    `self.attr` in state-passing form: listed attributes in, (attributes..., result) out, True/False as 1/0,
+    `raise` as result -1).
     Python semantics of the operators on Int are fixed once, in lean/Pycdlib/Model/PyOps.lean.
 Pycdlib/Props/Tie.lean then *proves* that every generated definition equals the hand-written model
 definition the property theorems are about, so a changed constant, table entry, comparison or rounding
@@ -96,8 +98,12 @@ def lean_nat_list(name, vals, per_line=10, doc=None):
 class Fn:
     """Translate one Python function into a Lean `def` over Int (see module docstring for the subset)."""
 
-    def __init__(self, tree, qual, lean_name, calls=None, tables=None, cls=None, fmt_sizes=None, opaque=()):
+    def __init__(self, tree, qual, lean_name, calls=None, tables=None, cls=None, fmt_sizes=None, opaque=(), state=()):
         self.tree, self.qual, self.lean_name = tree, qual, lean_name
+        # state-passing mode for methods that update `self.<attr>`: the listed attributes become leading parameters and
+        # the result is the tuple (attributes..., returned value); True/False are 1/0, falling off the end returns 0,
+        # `raise` returns -1 with the attributes as they are at that point
+        self.state = list(state)
         self.calls = calls or {}          # python call text -> lean function name
         self.tables = tables or {}        # python name -> lean List Nat name
         self.cls = cls
@@ -117,6 +123,8 @@ class Fn:
     def expr(self, e):
         if isinstance(e, ast.Constant):
             if isinstance(e.value, bool):
+                if self.state:
+                    return '(%d : Int)' % int(e.value)
                 raise Unsupported('bool constant in int context')
             if isinstance(e.value, int):
                 return '(%d : Int)' % e.value
@@ -193,12 +201,16 @@ class Fn:
         pad = '  ' * ind
         if not stmts:
             if cont is None:
+                if self.state:
+                    return pad + self.result('(0 : Int)')
                 raise Unsupported('fall off the end without return')
             return pad + cont
         s, rest = stmts[0], stmts[1:]
         if isinstance(s, ast.Expr) and isinstance(s.value, ast.Constant) and isinstance(s.value.value, str):
             return self.block(rest, cont, ind)
         if isinstance(s, ast.Return):
+            if self.state:
+                return pad + self.result(self.expr(s.value) if s.value is not None else '(0 : Int)')
             return pad + self.expr(s.value)
         if isinstance(s, ast.Assign) and len(s.targets) == 1 and isinstance(s.targets[0], ast.Name):
             if isinstance(s.value, ast.Call) and ast.unparse(s.value.func) in ('time.gmtime', 'time.localtime'):
@@ -234,6 +246,8 @@ class Fn:
         if isinstance(s, ast.For):
             return self.for_fold(s, rest, cont, ind)
         if isinstance(s, ast.Raise):
+            if self.state and cont is None:
+                return pad + self.result('(-1 : Int)')
             raise Unsupported('raise')
         raise Unsupported('statement %s' % type(s).__name__)
 
@@ -265,9 +279,24 @@ class Fn:
                 (pad + '    let %s := st__\n' % tup if len(state) != 1 else '') +
                 body + ') %s\n' % tup + self.block(rest, cont, ind))
 
+    def result(self, value):
+        return '(' + ', '.join(self.state + [value]) + ')'
+
     def translate(self, ret='Int', seq_params=()):
         fn = _find(self.tree, self.qual)
         args = [a.arg for a in fn.args.args if a.arg not in ('self', 'cls')]
+        if self.state:
+            state = set(self.state)
+
+            class SelfToLocal(ast.NodeTransformer):
+                def visit_Attribute(self_, node):     # noqa: N805
+                    if isinstance(node.value, ast.Name) and node.value.id == 'self' and node.attr in state:
+                        return ast.copy_location(ast.Name(id=node.attr, ctx=node.ctx), node)
+                    return self_.generic_visit(node)
+            fn = SelfToLocal().visit(ast.parse(ast.unparse(fn)).body[0])
+            ast.fix_missing_locations(fn)
+            args = self.state + args
+            ret = ' × '.join(['Int'] * (len(self.state) + 1))
         body = self.block(fn.body, None, 1)
         args = [a for a in args if a not in self.opaque]
         sig = ' '.join('(%s : %s)' % (a, 'List Int' if a in seq_params else 'Int') for a in args + self.attr_params)
@@ -306,7 +335,7 @@ def _always_returns(stmts):
     if not stmts:
         return False
     last = stmts[-1]
-    if isinstance(last, ast.Return):
+    if isinstance(last, (ast.Return, ast.Raise)):
         return True
     if isinstance(last, ast.If):
         return _always_returns(last.body) and bool(last.orelse) and _always_returns(last.orelse)
@@ -384,6 +413,14 @@ def gen_kernel(repo, info):
         return a + '\n' + b
     out += '\n' + _try(info, 'fid_length', fid_len)
     out += '\n' + _try(info, 'calc_cc', lambda: Fn(hyb, 'IsoHybrid._calc_cc', 'calc_cc').translate(ret='Int × Int'))
+    # volume descriptor accounting (headervd.py): path table size / extents, volume space size
+    hvd = ast.parse(_read(repo, 'pycdlib/headervd.py'))
+    cd = {'utils.ceiling_div': 'ceiling_div'}
+    vd = 'PrimaryOrSupplementaryVD.'
+    for meth, state in (('add_to_ptr_size', ('path_tbl_size', 'path_table_num_extents')),
+                        ('remove_from_ptr_size', ('path_tbl_size', 'path_table_num_extents')),
+                        ('add_to_space_size', ('space_size',)), ('remove_from_space_size', ('space_size',))):
+        out += '\n' + _try(info, meth, lambda meth=meth, state=state: Fn(hvd, vd + meth, 'vd_' + meth, calls=cd, state=state).translate())
     return out + FOOTER
 
 
